@@ -634,7 +634,10 @@ class Check:
             try:
                 msg = self.oracle(c, o)
             except Exception as e:
-                msg = "oracle crashed: %r" % (e,)
+                # the observation has a shape the oracle cannot read: the check could not judge this case.  That is reported as a broken
+                # check (search for a real failing input, else no-failing-input-found), never as a failing input of the property
+                msg = None
+                self.oracle_crashes = getattr(self, "oracle_crashes", []) + ["%s: %r" % (case_hash(c), e)]
             if msg:
                 oracle_fail.append((i, msg))
             try:
@@ -699,7 +702,8 @@ class Check:
                 try:
                     msg = self.on_exception(c, o) if "exception" in o else self.oracle(c, o)
                 except Exception as e:
-                    msg = "oracle crashed: %r" % (e,)
+                    msg = None
+                    self.oracle_crashes = getattr(self, "oracle_crashes", []) + ["%s: %r" % (case_hash(c), e)]
                 if msg:
                     j["oracle_fail"].append((i, msg))
         # 2. direct violations of the property text on the implementation
@@ -747,6 +751,8 @@ class Check:
                 unexplained_corr.append(i)
         if unexplained_corr:
             broken.append("correspondence: model and implementation differ on %d of %d cases" % (len(unexplained_corr), j["n_corr"]))
+        if getattr(self, "oracle_crashes", None):
+            broken.append("the oracle could not read the observation of %d cases (first: %s)" % (len(self.oracle_crashes), self.oracle_crashes[0][:300]))
         for msg, c in self.extra_checks():
             violations.append((self.write_replay("extra", c, {}, msg), ""))
         searched = 0
@@ -839,7 +845,7 @@ class Check:
                 try:
                     msg = self.on_exception(c, o) if "exception" in o else self.oracle(c, o)
                 except Exception as e:
-                    msg = "oracle crashed: %r" % (e,)
+                    msg = None
                 if msg and not self.known(c, o, msg):
                     c2, o2 = self.shrink(c, o, msg)
                     return ((c2, o2, msg), None, n)
